@@ -20,6 +20,9 @@ def _patch():
             from ..contracts import argreduce as AR
 
             AR.argreduce_models(self)
+            from ..contracts import factorize as FZ
+
+            FZ.convert_models(self)
 
         P.Prims.register_defaults = reg
         P.Prims._fin_models = True
